@@ -23,6 +23,23 @@ pub struct Case {
     pub raw: Option<RawDoc>,
     pub kitchen: Option<usize>,
     pub mode: Mode,
+    #[serde(default)]
+    pub proto: Option<vcore::pschema::RawPDoc>,
+    #[serde(default)]
+    pub pkitchen: Option<usize>,
+}
+
+/// (is protobuf, files, main files) of a case
+fn files_of(c: &Case) -> (bool, Vec<(String, String)>, usize) {
+    if let Some(p) = &c.proto {
+        return (true, vcore::pschema::resolve_pdoc(p).print_files(), 1);
+    }
+    if let Some(k) = c.pkitchen {
+        return (true, vcore::kitchen::proto_docs()[k].print_files(), 1);
+    }
+    let d = doc_of(c);
+    let n = d.files.len();
+    (false, d.print_files(), n)
 }
 
 fn doc_of(c: &Case) -> SDoc {
@@ -58,30 +75,31 @@ fn hash_tree(root: &Path) -> BTreeMap<String, u64> {
 }
 
 /// One builder run in a fresh process; returns the hashes of everything it wrote.
-fn build_once(doc: &SDoc, mode: Mode, slot: &str, threads: usize) -> Result<BTreeMap<String, u64>, String> {
+fn build_once(c: &Case, mode: Mode, slot: &str, threads: usize) -> Result<BTreeMap<String, u64>, String> {
+    let (is_proto, files, nmain) = files_of(c);
     let dir = work_dir().join("c17").join(slot);
     let _ = std::fs::remove_dir_all(&dir);
     // the IDL location is kept identical across runs (paths are part of the input)
     let idl = work_dir().join("c17").join(format!("idl-{}", slot.split('-').next().unwrap_or("x")));
-    for (name, text) in doc.print_files() {
-        write_if_changed(&idl.join(name), &text);
+    for (name, text) in &files {
+        write_if_changed(&idl.join(name), text);
     }
     let out_root = dir.join("out");
     let _ = std::fs::create_dir_all(&out_root);
-    let mut args: Vec<String> = vec!["thrift".into()];
+    let mut args: Vec<String> = vec![if is_proto { "proto".into() } else { "thrift".into() }];
     match mode {
         Mode::Workspace => {
             // workspace mode merges into an existing workspace manifest (as after `cargo init`)
             let _ = std::fs::write(out_root.join("Cargo.toml"), "[workspace]\nmembers = []\nresolver = \"2\"\n");
             args.push(out_root.to_string_lossy().into());
-            for f in &doc.files {
-                args.push(idl.join(format!("{}.thrift", f.stem)).to_string_lossy().into());
+            for f in files.iter().take(nmain) {
+                args.push(idl.join(&f.0).to_string_lossy().into());
             }
             args.push("--workspace".into());
         }
         _ => {
             args.push(out_root.join("gen.rs").to_string_lossy().into());
-            args.push(idl.join(format!("{}.thrift", doc.files[0].stem)).to_string_lossy().into());
+            args.push(idl.join(&files[0].0).to_string_lossy().into());
             if mode == Mode::Split {
                 args.push("--split".into());
             }
@@ -99,11 +117,11 @@ fn build_once(doc: &SDoc, mode: Mode, slot: &str, threads: usize) -> Result<BTre
 }
 
 pub fn check_case(c: &Case, slot: &str, runs: &[usize]) -> Result<usize, Fail> {
-    let doc = doc_of(c);
+    let (_, files, _) = files_of(c);
     let mut reference: Option<(usize, BTreeMap<String, u64>)> = None;
     let mut n = 0;
     for (i, threads) in runs.iter().enumerate() {
-        let h = match build_once(&doc, c.mode, &format!("{}-{}", slot, i), *threads) {
+        let h = match build_once(c, c.mode, &format!("{}-{}", slot, i), *threads) {
             Ok(h) => h,
             // a build failure is C14's subject, not a determinism violation
             Err(_) => return Ok(n),
@@ -115,7 +133,7 @@ pub fn check_case(c: &Case, slot: &str, runs: &[usize]) -> Result<usize, Fail> {
                 if *r != h {
                     let a: Vec<&String> = r.keys().collect();
                     let b: Vec<&String> = h.keys().collect();
-                    let idl: String = doc.print_files().into_iter().map(|(n, t)| format!("// {}\n{}\n", n, t)).collect();
+                    let idl: String = files.iter().map(|(n, t)| format!("// {}\n{}\n", n, t)).collect();
                     let what = if a != b {
                         format!("the set of emitted files differs: {:?} vs {:?}", a, b)
                     } else {
@@ -160,16 +178,24 @@ pub fn run(ctx: &Ctx) -> i32 {
     let mut cases: Vec<Case> = vec![];
     for k in 0..vcore::kitchen::thrift_docs().len() {
         for m in [Mode::Single, Mode::Split, Mode::Workspace] {
-            cases.push(Case { raw: None, kitchen: Some(k), mode: m });
+            cases.push(Case { raw: None, kitchen: Some(k), mode: m, proto: None, pkitchen: None });
         }
     }
     let n = ctx.tier.pick(8, 60) as usize;
     let hostile = GenOpts { hostile_names: true, ..GenOpts::default() };
     for (i, raw) in sample(&arb_raw_doc(hostile), ctx.seed, "c17-hostile", n).into_iter().enumerate() {
-        cases.push(Case { raw: Some(raw), kitchen: None, mode: [Mode::Single, Mode::Split, Mode::Workspace][i % 3] });
+        cases.push(Case { raw: Some(raw), kitchen: None, mode: [Mode::Single, Mode::Split, Mode::Workspace][i % 3], proto: None, pkitchen: None });
     }
     for (i, raw) in sample(&arb_raw_doc(GenOpts::default()), ctx.seed, "c17-plain", n).into_iter().enumerate() {
-        cases.push(Case { raw: Some(raw), kitchen: None, mode: [Mode::Split, Mode::Workspace, Mode::Single][i % 3] });
+        cases.push(Case { raw: Some(raw), kitchen: None, mode: [Mode::Split, Mode::Workspace, Mode::Single][i % 3], proto: None, pkitchen: None });
+    }
+    for k in 0..vcore::kitchen::proto_docs().len() {
+        for m in [Mode::Single, Mode::Split] {
+            cases.push(Case { raw: None, kitchen: None, mode: m, proto: None, pkitchen: Some(k) });
+        }
+    }
+    for (i, praw) in sample(&vcore::pschema::arb_raw_pdoc(), ctx.seed, "c17-proto", n).into_iter().enumerate() {
+        cases.push(Case { raw: None, kitchen: None, mode: [Mode::Single, Mode::Split][i % 2], proto: Some(praw), pkitchen: None });
     }
     let runs: Vec<usize> = if ctx.tier == vcore::evidence::Tier::Quick { vec![1, 16, 2, 8, 3, 4, 16, 1] } else { (0..48).map(|i| [1, 16, 2, 8, 3, 4, 5, 7][i % 8]).collect() };
     let results: std::sync::Mutex<Vec<(usize, Result<usize, Fail>)>> = Default::default();
@@ -193,8 +219,8 @@ pub fn run(ctx: &Ctx) -> i32 {
     let mut reported = std::collections::BTreeSet::new();
     for (i, r) in results {
         let c = &cases[i];
-        let doc = doc_of(c);
-        let modules = doc.files.len();
+        let (is_proto, files, _) = files_of(c);
+        let modules = if is_proto { files.iter().map(|f| f.1.matches("message ").count()).sum::<usize>() } else { files.len() };
         let comparisons = match &r {
             Ok(n) => n.saturating_sub(1),
             Err(_) => 1,
@@ -203,11 +229,13 @@ pub fn run(ctx: &Ctx) -> i32 {
             let mut rr = rec.borrow_mut();
             for k in 0..comparisons {
                 rr.case(fp(&(c, k)), modules >= 2, || {
-                    let t: String = doc.print_files().into_iter().map(|(n, t)| format!("// {}\n{}\n", n, t)).collect();
+                    let t: String = files.iter().map(|(n, t)| format!("// {}\n{}\n", n, t)).collect();
                     json!({"mode": format!("{:?}", c.mode), "threads": runs[(k + 1) % runs.len()], "idl": vcore::evidence::truncate(&t, 400)})
                 });
                 rr.class(&format!("mode {:?}", c.mode));
                 rr.class_if(modules >= 2, ">= 2 modules");
+                rr.class_if(is_proto, "protobuf document");
+                rr.class_if(is_proto && files.iter().any(|f| f.1.matches("  message ").count() >= 2), "protobuf: >= 2 nested messages");
             }
             if matches!(r, Ok(0)) {
                 rr.exclude("document does not build (C14's subject)");
@@ -223,7 +251,7 @@ pub fn run(ctx: &Ctx) -> i32 {
     }
     let _: PathBuf = work_dir();
     if rec.borrow().violations.is_empty() {
-        if let Some(c) = require_classes(&rec, &["mode Single", "mode Split", "mode Workspace", ">= 2 modules"]) {
+        if let Some(c) = require_classes(&rec, &["mode Single", "mode Split", "mode Workspace", ">= 2 modules", "protobuf document", "protobuf: >= 2 nested messages"]) {
             rec.borrow().finish(&ctx.findings);
             return c;
         }
